@@ -1,4 +1,4 @@
-CONSTANTS TS = {0,1,2,3,4,5}  Delays = {0,1,2,4}  Lates = {0,1,2}  MaxOffers = 7
+CONSTANTS TS = {0,1,2,3,4,5}  Delays = {0,1,2,4}  Lates = {0,1,2,1000000}  MaxOffers = 7
 INIT Init
 NEXT Next
 CONSTRAINT BoundOffers
